@@ -58,6 +58,7 @@ class Context:
         self._oracle_cache = {}
         self.ghost_log = []
         self.sigma_cache = {}
+        self.matvec_cache = {}
         self.axsum_log = []
         self.sigma_terms = []
         V.ORACLE = self.implied
@@ -210,7 +211,29 @@ class Context:
         pass
 
     def on_field_write(self, o, attr, v):
-        pass
+        if attr in getattr(self, 'name_fields', ()):
+            from .values import LArr
+            if isinstance(v, LArr) and v.view_of is None:
+                self.name_array(v, attr)
+
+    def name_array(self, a, name):
+        """definitional extension: give the current contents of a symbolic array a name F (fresh function) with  forall idx: F(idx) = contents(idx);
+        later terms mention F(idx) instead of the (possibly deeply nested) defining expression.  Returns (F, definition hypothesis)."""
+        sort = {'real': z3.RealSort(), 'int': z3.IntSort(), 'bool': z3.BoolSort()}.get(a.kind)
+        if sort is None:
+            return None
+        F = self.fresh_fun(name, *([z3.IntSort()] * a.ndim), sort)
+        qs = [z3.Int(f'nq{k}!{next(self.fresh_ctr)}') for k in range(a.ndim)]
+        old = a.elem
+        body = old(tuple(qs))
+        body = V.zreal(body) if a.kind == 'real' else (V.zint(body) if a.kind == 'int' else V.zbool(body))
+        rng = z3.And(*[z3.And(q >= 0, q < V.zint(d)) for q, d in zip(qs, a.shape)])
+        hyp = z3.ForAll(qs, z3.Implies(rng, F(*qs) == body), patterns=[F(*qs)])
+        self.hyps.append(hyp)
+        a.elem = lambda idx, F=F: F(*[V.zint(x) for x in idx])
+        self.named_arrays = getattr(self, 'named_arrays', {})
+        self.named_arrays[name] = (F, old)
+        return F, hyp
 
     def note(self, s):
         self.notes.append(s)
